@@ -122,6 +122,35 @@ def pep701_first_index(toks):
     return None
 
 
+def fstring_backslash_brace_first_line(toks, lines):
+    """line of the first f-string whose source text contains a backslash directly before a brace (reference tokens)"""
+    def span_text(st, en):
+        if st[0] == en[0]:
+            return lines[st[0] - 1][st[1]:en[1]]
+        return lines[st[0] - 1][st[1]:] + ''.join(lines[st[0]:en[0] - 1]) + lines[en[0] - 1][:en[1]]
+    start = None
+    depth = 0
+    for typ, s, st, en in toks:
+        if typ == 'STRING':
+            m = re.match(r'[A-Za-z]*', s)
+            if 'f' in m.group(0).lower() and ('\\{' in s or '\\}' in s):
+                return st[0]
+        elif typ == 'FSTRING_START':
+            if depth == 0:
+                start = st
+            depth += 1
+        elif typ == 'FSTRING_END':
+            depth -= 1
+            if depth == 0 and start is not None:
+                try:
+                    t = span_text(start, en)
+                except Exception:
+                    t = ''
+                if '\\{' in t or '\\}' in t:
+                    return start[0]
+    return None
+
+
 def _nontrivial(text):
     import re
     return bool(re.search(r'\d_\d|\de[+-]?\d|\dj\b|\b[rbufRBUF]{1,2}["\']|\\\r?\n|^\t|\x0c|\*\*|//|->|:=|<<|>>|[-+*/%&|^@]=', text, re.M))
@@ -173,6 +202,7 @@ def judge(ctx, v, text, ref, origin):
               and l.strip(' \t\x0c\r\n') and not l.lstrip(' \t\x0c').startswith('#')]
         p701 = pep701_first_index(ref['toks'])
         return {'index': i, 'line': line, 'first_formfeed_indent_line': ff[0] if ff else None,
+                'fstring_backslash_brace_first_line': fstring_backslash_brace_first_line(ref['toks'], lines),
                 'pep701_first_line': p701, 'version_ge_312': tuple(int(z) for z in v.split('.')) >= (3, 12),
                 'ref_token': list(a[i]) if i < len(a) else None, 'parso_token': list(b[i]) if i < len(b) else None}
     pend = []
